@@ -232,7 +232,7 @@ def strategy(tier):
 
 def budget(tier):
     if tier == 'quick':
-        return {'max_examples': 1200, 'shards': 8, 'time_budget': 90}
+        return {'max_examples': 2400, 'shards': 16, 'time_budget': 90}
     return {'max_examples': 120000, 'shards': 16, 'time_budget': 1200}
 
 
